@@ -6,7 +6,7 @@ Kinds of cases:
   emacs  a real PromptSession in Emacs mode; every op is a key chord (with an optional readline
          numeric argument typed through its own keys) fed into the real KeyProcessor; after every
          op the model must predict text, cursor, the whole kill ring and document_before_paste.
-         Ops: kl ld kw kwc(c-delete) wr bk y yp f b ins goto reg (C-@ .. C-w / M-w), regt (a selection of any
+         Ops: kl ld kw kwc(c-delete) dc(delete-char) wr bk y yp f b ins goto reg (C-@ .. C-w / M-w), regt (a selection of any
          SelectionType started through Buffer.start_selection, then C-w / M-w), shift (s-left / s-right
          presses, then C-w / M-w / backspace / C-y / a character).
   vi     the same in Vi mode (x X s D C dd yy Y cc S p P "xp "xP, visual y/d/x/"xy/"xd with the three
@@ -105,7 +105,7 @@ RULE = ("emacs: for every text over {a, space, newline, .} up to the tier's leng
         "editor with a preloaded ring: every kill command (incl. c-delete) x every argument class (none, M--, negative, "
         "0, positive, oversized, >= 10^6) followed by yank and yank-pop, every pair of kill commands, triple word kills "
         "and triple line kills, M-d / c-delete mixes, kills after a failing kill, yank with arguments + yank-pop "
-        "cycles, yank-pop not after a yank, every region (mark, point) kill/copy for the three selection types, every "
+        "cycles, C-y + every kill / delete-char / self-insert / motion + M-y (yank-pop must do nothing), every region (mark, point) kill/copy for the three selection types, every "
         "shift selection (anchor, 1-3 presses left / right) followed by C-w / M-w / backspace / C-y / a character; "
         "then seeded random sessions (<= 13 chords incl. cursor moves, self-insert, goto, regions, ring bound 1..60, "
         "unicode); vi: for every text over {a, space, newline}: x X s dd yy with counts, D C cc S Y, p P with counts, "
@@ -193,7 +193,7 @@ MODELLED = {
         "Buffer.delete", "Buffer.delete_before_cursor", "Buffer.copy_selection", "Buffer.cut_selection",
         "Buffer.paste_clipboard_data"],
     "src/prompt_toolkit/key_binding/bindings/named_commands.py": [
-        "kill_line", "kill_word", "unix_word_rubout", "backward_kill_word", "unix_line_discard", "yank", "yank_pop",
+        "delete_char", "kill_line", "kill_word", "unix_word_rubout", "backward_kill_word", "unix_line_discard", "yank", "yank_pop",
         "forward_char", "backward_char"],
     "src/prompt_toolkit/key_binding/bindings/emacs.py": [
         "load_emacs_bindings._start_selection", "load_emacs_bindings._cut", "load_emacs_bindings._copy",
@@ -306,7 +306,7 @@ def arg_keys(a) -> str:
 
 
 EMACS_KEYS = {"kl": "\x0b", "ld": "\x15", "kw": "\x1bd", "wr": "\x17", "bk": "\x1b\x7f", "y": "\x19",
-              "yp": "\x1by", "f": "\x06", "b": "\x02", "kwc": "\x1b[3;5~"}
+              "yp": "\x1by", "f": "\x06", "b": "\x02", "kwc": "\x1b[3;5~", "dc": "\x1b[3~"}
 SHIFT_ACT_KEYS = {"cw": "\x17", "mw": "\x1bw", "bs": "\x7f", "cy": "\x19"}
 
 
@@ -690,6 +690,19 @@ def emacs_single_seqs(n, quick=False):
     seqs.append([["N", "kl"], ["N", "yp"], ["N", "y"]])
     seqs.append([["N", "y"], ["N", "ins", 97], ["N", "yp"], ["N", "y"]])
     seqs.append([[3, "y"], ["N", "yp"], ["N", "yp"], ["N", "yp"], ["N", "yp"]])
+    # C-y, then a command that edits or moves, then M-y: yank-pop must do nothing
+    for c in ("kl", "kw", "kwc", "wr", "bk", "ld", "dc"):
+        seqs.append([["N", "y"], ["N", c], ["N", "yp"], ["N", "y"]])
+        seqs.append([["N", "y"], ["N", "yp"], ["N", c], ["N", "yp"]])
+        seqs.append([["N", "goto", 0], ["N", "y"], ["N", c], ["N", "yp"]])
+        if not quick:
+            seqs.append([["N", "y"], [2, c], ["N", "yp"]])
+            seqs.append([["N", "y"], ["-", c], ["N", "yp"]])
+    for c in (["N", "ins", 97], ["N", "f"], ["N", "b"], ["N", "goto", 0], ["N", "goto", n]):
+        seqs.append([["N", "y"], c, ["N", "yp"]])
+        seqs.append([["N", "goto", n // 2], ["N", "y"], c, ["N", "yp"], ["N", "y"]])
+    seqs.append([[2, "dc"], ["N", "y"]])
+    seqs.append([["-", "dc"], ["N", "y"]])
     # shift selection
     for a in range(n + 1):
         for k in ([-2, -1, 1, 2] if quick else [-3, -2, -1, 1, 2, 3]):
@@ -739,7 +752,7 @@ def rand_emacs_op(rng, n):
     if j < 3:
         return ["N", "regt", rng.randrange(0, n + 2), rng.randrange(0, n + 2), rng.randrange(2), rng.choice("clb")]
     if j < 4:
-        return [a, "kwc"]
+        return [a, rng.choice(["kwc", "dc"])]
     act = rng.choice([["cw"], ["mw"], ["bs"], ["cy"], ["ins", ord(rng.choice("az "))]])
     # (at least one shift-arrow press: with none, the op would be "move the cursor through the API, then press
     #  a key", which can make that key a repeat of the previous one although the cursor moved in between)
@@ -752,17 +765,28 @@ def rand_ring(rng, maxsize):
 
 
 _GENERATED = set()
+_CASES_CALLS = [0]
+SEARCH_CAP = 15000
 
 
 def cases(tier, rng):
     """exhaustive small scope + seeded random; when core asks again for the same tier (source-change
-    escalation with extra seeds) only the random part is generated again"""
+    escalation with extra seeds) only the random part is generated again.  The first call is the run
+    itself; when a proof or the correspondence broke and no violation was seen, core calls
+    cases("thorough") once more (oracle only): that search is capped to an evenly spread sample of the
+    thorough generator so that the verdict comes within minutes."""
+    _CASES_CALLS[0] += 1
     again = tier in _GENERATED
     _GENERATED.add(tier)
+    out = []
     for c in cases_(tier, rng):
         if again and ("seqs" in c or (c["kind"] in ("paste", "cut") and len(c["qs"]) > 8) or c.get("exh")):
             continue
-        yield c
+        out.append(c)
+    if tier == "thorough" and _CASES_CALLS[0] > 1 and len(out) > SEARCH_CAP:
+        k = -(-len(out) // SEARCH_CAP)
+        return out[::k]
+    return out
 
 
 def cases_(tier, rng):
@@ -1077,9 +1101,11 @@ def oracle_emacs_seq(case, tr, bad0):
     prev = None          # (cmd, pushed) of the previous op
     origin = None        # text before the first kill of the current run of accumulating kills
     done = []
+    live = False         # the last command that changed text or cursor was a yank / yank-pop
     for op, mid, a in tr[1:]:
         arg, cmd = op[0], op[1]
         done.append(op)
+        b_in = b
         if cmd == "shift" and mid["sel"] is None and op[4] in ("cw", "cy"):
             # the shift-arrow presses left no selection: C-w / C-y have their usual meaning
             # (unix-word-rubout / yank), pressed after other keys (so never a repeat)
@@ -1156,6 +1182,12 @@ def oracle_emacs_seq(case, tr, bad0):
                     and T2 != origin:
                 bad("named_commands.yank", "yank right after kill does not restore the text",
                     f"text before the kill(s) was {origin!r}")
+        elif cmd == "yp" and not live:
+            # yank-pop "only works following yank or yank-pop": after any other command that changed the
+            # text or the cursor (or with no yank at all) it must do nothing
+            if (T2, c2, a["ring"]) != (T, c, b["ring"]):
+                bad("yank-pop", "not preceded by a yank",
+                    "M-y changed text, cursor or ring although the previous command was not a yank / yank-pop")
         elif cmd == "yp":
             D = b["dbp"]
             if prev is not None and prev[0] in ("y", "yp+") and D is None:
@@ -1236,6 +1268,11 @@ def oracle_emacs_seq(case, tr, bad0):
                 bad("named_commands." + cmd, "ring changed", "ring")
         if cmd not in KILL_NAME and not (cmd == "reg" and op[4]) and not (cmd == "shift" and this[1]):
             origin = origin if cmd == "y" else None
+        # which commands keep the "last command was a yank" state alive
+        if cmd == "y" or (op[1] == "shift" and op[4] == "cy"):
+            live = True
+        elif cmd != "yp" and (a["text"], a["cur"]) != (b_in["text"], b_in["cur"]):
+            live = False
         prev = this
         b = a
 
